@@ -918,7 +918,7 @@ def prior_event_dims(idx: ProgramIndex, rep: Report):
                     recv = c.func.value
                     if any(isinstance(x, ast.Call) and (chain(x.func) or "").endswith("diagonal") for x in ast.walk(recv)):
                         continue  # a trace: matrix-valued event
-                    guarded = [t for t, _b in _enclosing_tests_c08(fi.node, c) if "event_shape" in src(t)]
+                    guarded = [t for t in _enclosing_tests_c08(fi.node, c) if "event_shape" in src(t)]
                     if isinstance(c, ast.Call) and not guarded:
                         # the conditional expression form: x.sum(-1) if len(self.event_shape) else x
                         for ie in ast.walk(fi.node):
